@@ -151,6 +151,18 @@ impl Log {
     }
 }
 
+/// Timer deadline relative to the poll's `now`, in milliseconds (negative = overdue).
+fn rel(now: Option<std::time::Instant>, t: Option<std::time::Instant>) -> Option<i64> {
+    match (now, t) {
+        (Some(n), Some(t)) => Some(if t >= n {
+            (t - n).as_millis() as i64
+        } else {
+            -((n - t).as_millis() as i64)
+        }),
+        _ => None,
+    }
+}
+
 pub fn fmt_us(t: Us) -> String {
     format!("{}.{:06}s", t / SEC, t % SEC)
 }
@@ -185,7 +197,7 @@ pub fn render(e: &Event) -> String {
             VerifEvent::PollStart { id, snap }
             | VerifEvent::PollEnd { id, snap, .. }
             | VerifEvent::VsockDropped { id, snap } => format!(
-                "{t} HOOK {} uid={} {}->{} state={} seq={} last_sent={} consumed={} rwnd={} cwnd={} flight={} rec={} rto_rx={} segs={} ring={}/{} rxq={}/{} ooq={}",
+                "{t} HOOK {} uid={} {}->{} state={} seq={} last_sent={} consumed={} rwnd={} cwnd={} flight={} rec={} rto_rx={} segs={} ring={}/{} rxq={}/{} ooq={} timers[rt={:?} ack={:?} inact={:?} pipe={:?} synack={:?}] rto={:?} pend={} unseg={}",
                 match h {
                     VerifEvent::PollStart { .. } => "poll-start".to_string(),
                     VerifEvent::PollEnd { finished, .. } => format!("poll-end({finished:?})"),
@@ -194,7 +206,10 @@ pub fn render(e: &Event) -> String {
                 id.uid, id.local, id.remote, snap.state, snap.seq_nr, snap.last_sent_seq_nr,
                 snap.last_consumed_remote_seq_nr, snap.last_remote_window, snap.cwnd, snap.flight_size,
                 snap.recovery, snap.rto_retransmissions, snap.segments.count, snap.tx.ring_len,
-                snap.tx.ring_capacity, snap.rx.queue_len_bytes, snap.rx.queue_capacity, snap.rx.ooq_len
+                snap.tx.ring_capacity, snap.rx.queue_len_bytes, snap.rx.queue_capacity, snap.rx.ooq_len,
+                rel(snap.now, snap.timers.retransmit), rel(snap.now, snap.timers.ack_delay),
+                rel(snap.now, snap.timers.remote_inactivity), rel(snap.now, snap.timers.recovery_pipe_expiry),
+                rel(snap.now, snap.timers.syn_ack_resend), snap.rto, snap.transport_pending, snap.unsegmented_data
             ),
             other => format!("{t} HOOK {other:?}"),
         },
